@@ -14,10 +14,17 @@
      whole cut oms      the entries that lie wholly inside the first [cut] bytes
      dec_set_c          dec_set instrumented with (entries whose 12-byte header was read, oracle outputs received)
 
-   Not covered here: C12_consumer_grows is property C14's growth theorem (consumer builder); response decoders
-   (Model/Responses.v, C05) are exercised on the implementation side only by harness/props/C12.py. *)
-From AV Require Import Base.Util Model.Prim Model.Crc Model.MsgSet
-     Proofs.PrimFacts Proofs.CrcBurst Proofs.DecodeTotal Proofs.Truncation.
+     grow / gstep / grun the consumer's buffer rule and its reaction to fetch answers (Model/FetchGrow.v)
+     chain o outs       the Deliver outputs of a trace are consecutive offset ranges starting at o; Some (next offset)
+     fetches_follow     every Fetch output asks for the offset right after the last delivered message
+
+   The consumer part is stated on the small model Model/FetchGrow.v (consumer.py:925-996,1093-1104 only), which has
+   its own correspondence against the real Consumer in harness/props/C12.py; the full consumer machine and the
+   numerical law (x16 up to 1 MiB, then x2, clipped) as part of it are property C14.  Response decoders
+   (Model/Responses.v, owned by C05) are compared with the implementation on hostile inputs by harness/props/C12.py;
+   the theorems of section 3 are about the message-set decoder, the primitive readers and counted loops. *)
+From AV Require Import Base.Util Model.Prim Model.Crc Model.MsgSet Model.FetchGrow Model.Responses
+     Proofs.PrimFacts Proofs.CrcBurst Proofs.DecodeTotal Proofs.Truncation Proofs.FetchGrowFacts Proofs.C12Resp.
 
 (* ================================================================== 1. CRC-32 burst detection *)
 
@@ -195,6 +202,85 @@ Theorem C12_counted_loop_ok : forall (A : Type) (p : list Z -> res (A * list Z))
 Proof. exact @read_n_ok. Qed.
 Print Assumptions C12_counted_loop_ok.
 
+(* ================================================================== 3b. the response decoders' counted loops *)
+
+(* `for _ in range(n)` in Model/Responses.v is [for_range] on fuel S (length data).  [for_range_iters] counts the
+   invocations of the loop body.  If every successful iteration consumes at least c >= 1 bytes ([gadv c]: the rest is
+   shorter by c, and a failing iteration fails with a real exception) then, whatever the count n read from the wire
+   claims, the body runs at most  length data / c + 1  times, a loop that completes has really consumed c bytes per
+   iteration, and the fuel was not what stopped it *)
+Theorem C12_resp_loop_linear : forall (A : Type) (body : list Z -> gen A) (c : nat),
+  (1 <= c)%nat -> (forall d, gadv c d (body d)) ->
+  forall fuel n data, (length data < fuel)%nat ->
+    (c * for_range_iters body fuel n data <= length data + c)%nat /\
+    (forall r, snd (for_range body fuel n data) = Ok r -> (c * for_range_iters body fuel n data + length r <= length data)%nat).
+Proof. exact @for_range_iters_linear. Qed.
+Print Assumptions C12_resp_loop_linear.
+
+Theorem C12_resp_loop_count : forall (A : Type) (body : list Z -> gen A) fuel n data,
+  (for_range_iters body fuel n data <= Z.to_nat n)%nat.
+Proof. exact @for_range_iters_count. Qed.
+Print Assumptions C12_resp_loop_count.
+
+(* every public decoder, every byte string: the outcome is a value or a real exception, never the model's
+   out-of-fuel marker - each loop stopped because its count was reached or a read failed, within length data + 1
+   iterations.  (The nesting budget of FetchResponse.messages is section 3 above.) *)
+Theorem C12_resp_never_out_of_fuel : forall data,
+  get_response_correlation_id data <> Err Fuel /\
+  decode_api_versions_response data <> Err Fuel /\
+  (forall ver g, decode_produce_response ver data = Some g -> snd g <> Err Fuel) /\
+  (forall ver depth orc, snd (decode_fetch_response ver depth orc data) <> Err Fuel) /\
+  snd (decode_offset_response data) <> Err Fuel /\
+  decode_metadata_response data <> Err Fuel /\
+  decode_consumermetadata_response data <> Err Fuel /\
+  snd (decode_offset_commit_response data) <> Err Fuel /\
+  snd (decode_offset_fetch_response data) <> Err Fuel /\
+  decode_join_group_protocol_metadata data <> Err Fuel /\
+  decode_join_group_response data <> Err Fuel /\
+  decode_leave_group_response data <> Err Fuel /\
+  decode_heartbeat_response data <> Err Fuel /\
+  decode_sync_group_response data <> Err Fuel /\
+  decode_sync_group_member_assignment data <> Err Fuel.
+Proof. exact resp_decoders_never_out_of_fuel. Qed.
+Print Assumptions C12_resp_never_out_of_fuel.
+
+(* ================================================================== 4. the consumer enlarges its buffer rather than skipping *)
+
+(* one answer that holds not even one complete message: the SAME offset is requested again with a strictly larger
+   buffer (never above the configured maximum) - or, exactly when the buffer already is at the maximum, the start
+   Deferred fails and nothing is requested *)
+Theorem C12_consumer_grows : forall mb s s' outs,
+  g_failed s = false -> 0 < g_buf s -> gstep mb s TooSmall = (s', outs) ->
+  (exists b, outs = [Fetch (g_off s) b] /\ g_buf s < b /\ (forall m, mb = Some m -> b <= m)
+             /\ s' = mkG (g_off s) b false)
+  \/ (outs = [StartFailed] /\ (exists m, mb = Some m /\ m <= g_buf s) /\ s' = mkG (g_off s) (g_buf s) true).
+Proof. exact toosmall_step. Qed.
+Print Assumptions C12_consumer_grows.
+
+(* over any sequence of answers: what is handed to the processor is one gap-free run of offsets from the start offset
+   to the final fetch offset, and every request asks for the offset right after the last delivered message *)
+Theorem C12_consumer_never_skips : forall mb evs s s' outs,
+  grun mb s evs = (s', outs) -> chain (g_off s) outs = Some (g_off s') /\ fetches_follow (g_off s) outs = true.
+Proof. intros mb evs s s' outs H. split; [exact (run_chain mb evs s s' outs H) | exact (run_follow mb evs s s' outs H)]. Qed.
+Print Assumptions C12_consumer_never_skips.
+
+(* without a maximum the buffer at least doubles per such answer: it exceeds any message size after finitely many *)
+Theorem C12_consumer_reaches_any_size : forall n s s' outs,
+  g_failed s = false -> 0 < g_buf s -> grun None s (repeat TooSmall n) = (s', outs) ->
+  g_failed s' = false /\ g_off s' = g_off s /\ 2 ^ Z.of_nat n * g_buf s <= g_buf s' /\ length outs = n.
+Proof. exact toosmall_unbounded. Qed.
+Print Assumptions C12_consumer_reaches_any_size.
+
+(* with a maximum m: the buffer reaches min(2^n * buf, m) unless a failure was reported, never exceeds m, and a
+   failure is reported only with the buffer at m *)
+Theorem C12_consumer_reaches_max : forall m n s s' outs,
+  g_failed s = false -> 0 < g_buf s -> g_buf s <= m -> grun (Some m) s (repeat TooSmall n) = (s', outs) ->
+  g_off s' = g_off s /\ g_buf s' <= m /\
+  (g_failed s' = false -> Z.min (2 ^ Z.of_nat n * g_buf s) m <= g_buf s') /\
+  (g_failed s' = true -> g_buf s' = m /\ In StartFailed outs).
+Proof. exact toosmall_bounded. Qed.
+Print Assumptions C12_consumer_reaches_max.
+
 (* ================================================================== non-vacuity *)
 
 (* one message in each format *)
@@ -269,4 +355,24 @@ Example hostile_count :
   read_count read_i32 100000 [0; 0; 0; 1; 0; 0; 0; 2; 0] = (Err Underflow, 3%nat) /\
   read_count read_i32 (-1) [0; 0; 0; 1] = (Ok ([], [0; 0; 0; 1]), 0%nat) /\
   read_count read_i32 2 [0; 0; 0; 1; 0; 0; 0; 2; 0] = (Ok ([1; 2], [0]), 2%nat).
+Proof. vm_compute. auto. Qed.
+
+(* consumer: 100 bytes, maximum 30000, three useless answers then two messages: 100 -> 1600 -> 25600 -> 30000, then
+   failure would come next; here the fourth answer fits and offsets 7,8 are delivered, nothing skipped *)
+Example grow_run :
+  snd (grun (Some 30000) (mkG 7 100 false) [TooSmall; TooSmall; TooSmall; Msgs 2; TooSmall])
+  = [Fetch 7 1600; Fetch 7 25600; Fetch 7 30000; Deliver 7 8; Fetch 9 30000; StartFailed].
+Proof. vm_compute. reflexivity. Qed.
+Example grow_rule :
+  map (fun bm => grow (fst bm) (snd bm))
+      [(131072, None); (1048576, None); (1048577, None); (100, Some 100); (100, Some 101); (2097152, Some 3000000)]
+  = [Some 2097152; Some 16777216; Some 2097154; None; Some 101; Some 3000000].
+Proof. vm_compute. reflexivity. Qed.
+
+(* response decoders: a join-group protocol metadata claiming 10^7 subscriptions in 8 bytes (the F-C12-1 input) *)
+Example hostile_subscriptions :
+  decode_join_group_protocol_metadata [0; 0; 0; 152; 150; 128; 255; 254] = Err Protocol /\
+  for_range_iters (one read_short_text) 3 10000000 [255; 254] = 1%nat /\
+  decode_join_group_protocol_metadata [0; 0; 0; 0; 0; 1; 0; 1; 97; 255; 255; 255; 255]
+  = Ok (mk_protocol_metadata 0 [[97]] None).
 Proof. vm_compute. auto. Qed.
